@@ -217,6 +217,7 @@ def run(ctx):
             ctx.check(bool(okz), 'orthogonalize:stab', 'stabilised orthogonalisation (pivot %d, d = %d): 2^p Z is not the input / mantissa not moderate / pivot norm wrong' % (k, d), case=case)
     if mirror_bad:
         raise tlc.TlcError('exact mirror disagrees with TLC on %d profiles' % mirror_bad)
+    check_long_generic(ctx, np.random.default_rng(ctx.seed + 99), quick)
     # ---- rank >= 2 (mirror): sums of two chains, moderate d, huge per-core shifts; stabilised rounding
     for t in range(12 if quick else 120):
         d = int(rng.integers(30, 61))
@@ -272,3 +273,53 @@ def run(ctx):
         # tiny perturbation in another direction: documented saturation 0 of the relative accuracy
         a0 = teneva.accuracy(Ym, Ym)
         ctx.check(0 <= a0 <= 1e-7, 'accuracy:self', 'accuracy(Y, Y) = %r' % a0)
+
+
+def check_long_generic(ctx, rng, quick):
+    """Thousands of dimensions with cores that are NOT powers of two: every per-core Gram factor has a generic mantissa, so
+    the running product leaves the double range after ~1000 factors unless it is renormalised after every core.
+    Rank 1 with the same core in every mode (closed form), and generic rank 3 (reference: the same contraction with its own
+    per-step rescaling, logarithms summed)."""
+    def lg(m, p):
+        return float(np.log2(abs(m))) + p
+    for d, s in [(1300, 0), (2000, 0), (3000, 5), (3000, -6)] if quick else [(1300, 0), (2000, 0), (3000, 5), (3000, -6), (4000, -5), (6000, 1), (2500, 30)]:
+        core = np.array([1., 2., 3.]) if d % 2 == 0 else np.array([3., -1., 0.5, 2.])
+        g2 = float(core @ core)
+        Y = [(core * 2.0 ** s).reshape(1, -1, 1).copy() for _ in range(d)]
+        true = d * (np.log2(g2) + 2 * s)
+        ctx.case(key=('long-rank1', d, s), nontrivial=True)
+        try:
+            v, p = teneva.mul_scalar(Y, Y, use_stab=True)
+            z, q = teneva.norm(Y, use_stab=True)
+            Y2 = [G.copy() for G in Y]
+            Y2[d // 2] = Y2[d // 2] * 1.25
+            acc = teneva.accuracy(Y2, Y)
+        except Exception as ex:
+            ctx.violation('mul_scalar:stab-raises', 'stabilised scalar product / norm / accuracy of a rank-1 tensor with %d modes (core %s * 2^%d) raised %s: %s' % (d, core.tolist(), s, type(ex).__name__, ex))
+            continue
+        ok = np.isfinite(v) and float(p).is_integer() and 0.5 <= abs(v) < 2.000001 and abs(lg(v, p) - true) <= 1e-6
+        ctx.check(bool(ok), 'mul_scalar:stab', 'rank-1 tensor with %d modes, core %s * 2^%d: <Y, Y> = (%r, %r), exact log2 = %.6f' % (d, core.tolist(), s, v, p, true))
+        ok = np.isfinite(z) and float(2 * q).is_integer() and 0.5 <= z < 2.000001 and abs(lg(z, q) - true / 2) <= 1e-6
+        ctx.check(bool(ok), 'norm:stab', 'rank-1 tensor with %d modes, core %s * 2^%d: norm = (%r, %r), exact log2 = %.6f' % (d, core.tolist(), s, z, q, true / 2))
+        ctx.check(abs(acc - 0.25) <= 1e-6, 'accuracy:stab', 'accuracy(Y with one core times 1.25, Y) = %r for d = %d (exact 0.25)' % (acc, d))
+    for d, s in [(1500, 8), (3000, -9)] if quick else [(1500, 8), (3000, -9), (2200, 0), (5000, 3)]:
+        sd = int(rng.integers(1 << 30))
+        Y1 = [G * 2.0 ** s for G in teneva.rand([2] * d, 3, seed=sd)]
+        Y2 = [G * 2.0 ** s for G in teneva.rand([2] * d, 3, seed=sd + 1)]
+        w, L = None, 0.
+        for G1, G2 in zip(Y1, Y2):
+            T = np.einsum('imj,kml->ikjl', G1, G2).reshape(G1.shape[0] * G2.shape[0], -1)
+            w = T if w is None else w @ T
+            c = float(np.max(np.abs(w)))
+            w = w / c
+            L += np.log2(c)
+        sign = np.sign(w.item())
+        L += np.log2(abs(w.item()))
+        ctx.case(key=('long-rank3', d, s, sd), nontrivial=True)
+        try:
+            v, p = teneva.mul_scalar(Y1, Y2, use_stab=True)
+        except Exception as ex:
+            ctx.violation('mul_scalar:stab-raises', 'stabilised scalar product of two rank-3 tensors with %d modes raised %s: %s' % (d, type(ex).__name__, ex))
+            continue
+        ok = np.isfinite(v) and 0.5 <= abs(v) < 2.000001 and np.sign(v) == sign and abs(lg(v, p) - L) <= 1e-5
+        ctx.check(bool(ok), 'mul_scalar:stab', 'two rank-3 tensors with %d modes (cores * 2^%d): <Y1, Y2> = (%r, %r), reference sign %d, log2 = %.6f' % (d, s, v, p, sign, L))
